@@ -1,13 +1,14 @@
 """C04 — element namespace.  Proof: Cjet.Props.C04; tie: simk vs model incl. full state image at every quiescent point
 (elements, owners, values, fetcher tables); monitor: reference finite map evaluated on the implementation's responses."""
 from vlib import common as C
-from vlib import dcheck
+from vlib import dcheck, directed
 
 LEVEL = "proof"
 
 
 def run(ctx, out):
     dcheck.run_property(ctx, out, "C04", "mon_c04", n_quick=300, n_thorough=5000,
-                        gen_kw=dict(ws_share=0.3, batches=0.1, malformed=0.03))
+                        gen_kw=dict(ws_share=0.3, batches=0.1, malformed=0.03),
+                        directed=directed.regressions())
     dcheck.run_more(ctx, out, "C04", "mon_c04", n_quick=100, n_thorough=1500, gen_kw=dict(variant="small", ws_share=0.2, single=True), tag="small")
     out.assumptions += ["refusals by the path index (hopscotch table full) are an oracle input of the model; C17 characterises when they happen"]
